@@ -235,6 +235,8 @@ impl Resolver<'_, PeerAs, PrefixSet<Any>> for RpslEvaluator {
 
     #[tracing::instrument(skip(self), level = "debug")]
     fn resolve(&mut self, _: &PeerAs) -> Result<PrefixSet<Any>, Self::IError> {
-        unimplemented!()
+        // `PeerAS` stands for the AS of the BGP peer a policy is applied to, which is not known
+        // when a filter expression is evaluated on its own: report an error instead of panicking.
+        Err(Error::Unsupported("PeerAS"))
     }
 }
